@@ -109,6 +109,21 @@ PROPS = {
             dict(name="TestKnownProbes", quick=1, thorough=1, shards_thorough=1, rapid=False),
         ],
     ),
+    "C09": dict(
+        pkg="c09", level="exploration",
+        technique="property-based testing (rapid) over option permutations, event shapes, stores and concurrent publishers; complete enumeration of hook-option orders; oracle = record-before-dispatch observed from inside handlers + final log audit",
+        level_text="Random search over option orders, event values and publisher interleavings on all three stores, plus complete enumeration of the 1631 orders of the hook-affecting options. Handlers read the store while they run, so 'recorded before delivered' is observed directly.",
+        level_note="Concurrent interleavings are sampled (race detector on). Offsets of the SQLite store are compared by (length, text) here; the lexicographic caveat is C10's known finding.",
+        crash_is_violation=True,
+        assumptions=COMMON_ASSUME + ["events carry a unique id field by which their record is found"],
+        tests=[
+            dict(name="TestPersistSeq", quick=1500, thorough=30000, shards_thorough=6),
+            dict(name="TestPersistConc", quick=200, thorough=2500, shards_thorough=6, race=True, shrinktime="10s"),
+            dict(name="TestPersistSQLite", quick=100, thorough=2000, shards_thorough=4, shrinktime="15s"),
+            dict(name="TestPersistDurable", quick=200, thorough=4000, shards_thorough=2, shrinktime="15s"),
+            dict(name="TestEnumOptionOrders", quick=1, thorough=1, shards_thorough=1, rapid=False),
+        ],
+    ),
 }
 
 HOOK_COMMITS = ["99604d0"]
